@@ -18,6 +18,7 @@ import (
 const c09Prelude = `
 access(all) entitlement E
 access(all) entitlement F
+access(all) entitlement G
 access(all) struct interface SI {}
 access(all) struct interface SJ: SI {}
 access(all) struct S: SJ { access(all) let x: Int; init(x: Int) { self.x = x } }
@@ -48,6 +49,11 @@ type c09Case struct {
 	Target   string   `json:"target"`
 	Resource bool     `json:"resource,omitempty"` // resource-kinded variant (v: @AnyResource)
 }
+
+// entitlement-set authorizations: single, conjunctions and disjunctions over E, F, G ("" = unauthorized)
+var c09Auths = []string{"", "auth(E) ", "auth(F) ", "auth(G) ", "auth(E, F) ", "auth(E, G) ", "auth(F, G) ", "auth(E | F) ", "auth(E | G) ", "auth(F | G) ", "auth(E, F, G) "}
+
+var c09AuthRe = regexp.MustCompile(`auth\([^)]*\) `)
 
 type c09Gen struct {
 	r    *rand.Rand
@@ -103,6 +109,14 @@ func parenT(t string) string {
 
 var hashableLeaves = []leaf{{"\"k\"", "String", ""}, {"(1 as Int)", "Int", ""}, {"true", "Bool", ""}, {"(0x2 as Address)", "Address", ""}, {"Col.green", "Col", ""}}
 
+// authRef is a reference to a struct with an entitlement-set authorization (1-3 entitlements, conjunction or disjunction).
+func (g *c09Gen) authRef() c09Value {
+	h := g.fresh()
+	borrow := []string{"S", "S", "{SI}", "AnyStruct"}[g.r.Intn(4)]
+	t := c09Auths[1+g.r.Intn(len(c09Auths)-1)] + "&" + borrow
+	return c09Value{Setup: []string{fmt.Sprintf("let %s: S = S(x: 3)", h)}, Expr: "(&" + h + " as " + t + ")", T0: t, Kind: "reference", Depth: 1, HasRef: true}
+}
+
 func (g *c09Gen) value(depth int) c09Value {
 	r := g.r
 	k := r.Intn(100)
@@ -114,6 +128,10 @@ func (g *c09Gen) value(depth int) c09Value {
 	case k < 52: // variable-sized / constant-sized array
 		n := r.Intn(3)
 		el := g.value(depth + 1)
+		if r.Intn(3) == 0 {
+			el = g.authRef()
+			n = 1 + r.Intn(2)
+		}
 		decl := g.declaredFor(el.T0)
 		parts := make([]string, n)
 		for i := range parts {
@@ -128,6 +146,9 @@ func (g *c09Gen) value(depth int) c09Value {
 	case k < 62: // dictionary
 		kl := hashableLeaves[r.Intn(len(hashableLeaves))]
 		el := g.value(depth + 1)
+		if r.Intn(3) == 0 {
+			el = g.authRef()
+		}
 		decl := g.declaredFor(el.T0)
 		kd := kl.typ
 		if r.Intn(4) == 0 {
@@ -160,7 +181,9 @@ func (g *c09Gen) value(depth int) c09Value {
 		}
 		auth := ""
 		switch a := r.Intn(10); {
+		case a < 3:
 		case a < 4:
+			auth = c09Auths[r.Intn(len(c09Auths))]
 		case a < 6:
 			auth = "auth(E) "
 		case a < 7:
@@ -202,7 +225,7 @@ var c09Targets = []string{
 	"S", "S2", "{SI}", "{SJ}", "{SI, SJ}", "Col",
 	"&Int", "&AnyStruct", "&[Int]", "&S", "&{SI}", "&{SJ}", "auth(E) &S", "auth(E, F) &S", "auth(E | F) &S", "auth(F) &S", "auth(E) &{SI}", "auth(E) &AnyStruct",
 	"&[AnyStruct]", "auth(Mutate) &[Int]", "auth(Insert) &[Int]", "auth(Insert, Remove) &[Int]", "&{String: Int}", "&S2", "&Int?", "(&S)?", "&[S]", "&[{SI}]",
-	"&R", "&{RI}", "&{RJ}", "&{RI, RJ}", "&AnyResource", "auth(E) &R", "auth(E) &{RI}", "&Q",
+	"&R", "&{RI}", "&{RJ}", "&{RI, RJ}", "&AnyResource", "auth(E) &R", "auth(E) &{RI}", "&Q", "[auth(E) &S]", "[auth(F) &S]", "[auth(E, F) &S]", "[auth(E | F) &S]", "{String: auth(E) &S}", "{String: auth(G) &S}", "[auth(E, G) &{SI}]",
 	"Capability", "Capability<&S>", "Capability<&Int>", "Capability<&{SI}>", "Capability<auth(E) &S>", "Capability<&AnyStruct>",
 	"fun(Int): Int", "fun(Int): AnyStruct", "view fun(Int): Int", "fun(Int8): Int", "fun(Int): Int?",
 	"InclusiveRange<Int>", "InclusiveRange<Int8>", "InclusiveRange<Integer>", "Never",
@@ -212,15 +235,23 @@ var c09Targets = []string{
 func (g *c09Gen) target(v c09Value) string {
 	r := g.r
 	t0 := v.T0
-	switch k := r.Intn(10); {
+	k := r.Intn(10)
+	if v.Kind != "reference" && c09AuthRe.MatchString(t0) && r.Intn(2) == 0 {
+		k = 3 // containers of authorized references: vary the entitlement sets
+	}
+	switch {
 	case k < 2:
 		return t0
 	case k < 3:
 		return parenT(t0) + "?"
 	case k < 4:
-		// drop / change the authorization of a reference type
+		// change every entitlement set in the type (also inside containers) to another one: same size with different
+		// names, a subset, a superset, the other set kind, or none
+		if c09AuthRe.MatchString(t0) {
+			return c09AuthRe.ReplaceAllStringFunc(t0, func(string) string { return c09Auths[r.Intn(len(c09Auths))] })
+		}
 		if i := strings.Index(t0, "&"); i >= 0 {
-			return []string{"", "auth(E) ", "auth(F) ", "auth(E, F) ", "auth(E | F) "}[r.Intn(5)] + t0[i:]
+			return t0[:i] + c09Auths[r.Intn(len(c09Auths))] + t0[i:]
 		}
 		return c09Targets[r.Intn(len(c09Targets))]
 	case k < 5:
@@ -421,7 +452,7 @@ func typeDepth(logged string) (base string, depth int) {
 }
 
 // targetDepth is the optional depth of a target type annotation, or -1 when the annotation's optionality is ambiguous
-// to this harness (unparenthesised reference types: `&Int?`).
+// to this harness (unparenthesised reference and function types: `&Int?`, `fun(Int): Int?`).
 func targetDepth(target string) int {
 	t := strings.TrimPrefix(target, "@")
 	d := 0
@@ -429,7 +460,7 @@ func targetDepth(target string) int {
 		t = strings.TrimSuffix(t, "?")
 		d++
 	}
-	if d > 0 && (strings.HasPrefix(t, "&") || strings.HasPrefix(t, "auth(")) {
+	if d > 0 && (strings.HasPrefix(t, "&") || strings.HasPrefix(t, "auth(") || strings.HasPrefix(t, "fun") || strings.HasPrefix(t, "view fun")) {
 		return -1
 	}
 	return d
@@ -614,7 +645,7 @@ func TestC09(t *testing.T) {
 		return
 	}
 	g := &c09Gen{r: evid.Rand(9)}
-	n := evid.N(2500, 30000)
+	n := evid.N(2500, 20000)
 	generated, rejected := 0, 0
 	for done := 0; done < n; {
 		c := g.next()
